@@ -66,7 +66,8 @@ class PropertyRun:
         self.reg = load_registry()
         self.repo = Repo()
         Repo.spec_modules = self.reg.spec_modules
-        self.known = [k for k in load_known() if k["property"] == pid and not k.get("fixed")]
+        # (findings reported by a bounded stand-in carry "bounded": <check name> and are handled by that stand-in, checks/<id>.py)
+        self.known = [k for k in load_known() if k["property"] == pid and not k.get("fixed") and not k.get("bounded")]
         self.fixed = [k for k in load_known() if k["property"] == pid and k.get("fixed")]
         self.functions = []
         self.undecided = []
